@@ -3,6 +3,7 @@ From Coq Require Import NArith ZArith List Bool Permutation.
 Require Import Tinode.Base.Util Tinode.Pure.Query Tinode.Pure.QuerySpec Tinode.Pure.QueryProofs.
 Require Import Tinode.Pure.Tags Tinode.Pure.TagsProofs.
 Require Import Tinode.Sys.TagState Tinode.Sys.TagStateProofs.
+Require Import Tinode.Sys.FndSearchC19 Tinode.Sys.FndSearchC19Proofs.
 Import ListNotations.
 
 (* ---- the query parser (model of parseSearchQuery after the repair of
@@ -264,4 +265,173 @@ Example c19_ex_new_topic :
     [NewGrp 7 1 (Some [s_bob; s_alice]); NewGrp 8 1 (Some [s_basic_bob]); SetTags 7 2 false (Some [s_bob])]%N
   = ([(7, mkH KGrp 1 [s_alice; s_bob] (Some [s_alice; s_bob])); (7, mkH KGrp 1 [s_alice; s_bob] (Some [s_alice; s_bob]))],
      [RCtrl 200 0 0; RCtrl 403 0 0; RCtrl 403 0 0])%N.
+Proof. reflexivity. Qed.
+
+(* ---- the SEARCH layer (model Sys/FndSearchC19.v of rewriteTag and of the 'fnd' topic: the
+   {set desc} that stores the query, the fnd branch of replyGetSub, store.Users.FindSubs above the
+   store contract of FindUsers / FindTopics).  Every unicode table, every list of validators'
+   PreCheck functions [vals] and authenticators' AsTag functions [auths] (in the order in which
+   rewriteTag visits them), every configuration c = (masked namespaces, the user's own tags, the
+   candidate rows), every topic state t, every session s (root or not, any country code), every
+   query, every request sequence. ---- *)
+Section C19Search.
+  Variable lower : N -> N.
+  Variables is_letter is_number : N -> bool.
+  Variable vals : list (tag -> tag -> tag).
+  Variable auths : list (tag -> tag).
+
+  Notation rewrite_tag := (rewrite_tag_c19 is_letter is_number vals auths).
+  Notation get_sub := (get_sub_c19 lower is_letter is_number vals auths).
+  Notation run := (run_c19 lower is_letter is_number vals auths).
+
+  (* (a) masked namespaces: store.Users.FindSubs is called only if every term of BOTH sets - the
+     required (AND) groups and the optional (comma / OR) list - that lies in a masked namespace is
+     one of the tags the topic holds for the user ... *)
+  Theorem c19_search_masked_terms_are_own : forall c t s r k,
+    get_sub c t s = (r, Some k) ->
+    forall x, In x (concat (k_req k) ++ k_opt k) -> restricted is_letter is_number (fc_masked c) x = true ->
+      In x (f_tags t).
+  Proof. exact (get_sub_masked_terms_own_c19 lower is_letter is_number vals auths). Qed.
+
+  (* ... otherwise the answer is 403 and the store is not called: ONE foreign masked term anywhere
+     in the reading of the query, required or optional, is enough *)
+  Theorem c19_search_foreign_masked_term_refused : forall c t s q wl req opt x,
+    active_query_c19 t s = Some (q, wl) ->
+    parse lower (rewrite_tag (s_cc s) wl) q = Ok (req, opt) ->
+    In x (concat req ++ opt) -> restricted is_letter is_number (fc_masked c) x = true -> ~ In x (f_tags t) ->
+    get_sub c t s = (FCtrl 403, None).
+  Proof. exact (get_sub_foreign_masked_refused_c19 lower is_letter is_number vals auths). Qed.
+
+  (* over histories: the topic's tag list never holds anything but tags of the user's row (it is
+     empty after initTopicFnd), so through every sequence of requests every masked-namespace term
+     that reaches the store is one of the user's own stored tags *)
+  Theorem c19_search_history_masked_terms_are_own : forall c rs t,
+    incl (f_tags t) (fc_own c) ->
+    Forall (fun a => match snd a with
+                     | Some k => forall x, In x (concat (k_req k) ++ k_opt k) ->
+                                   restricted is_letter is_number (fc_masked c) x = true -> In x (fc_own c)
+                     | None => True
+                     end) (snd (run c t rs)).
+  Proof. intros c rs t H. exact (proj1 (run_masked_terms_own_c19 lower is_letter is_number vals auths c rs t H)). Qed.
+
+  (* (b) what is handed to the store is the documented reading (QuerySpec.denote: comma = OR,
+     white space = AND, quoted terms literal) of the query that is active for the session - its
+     public query, else the stored private one - with every term spelled as itself and, when
+     rewriteTag changes it, its rewritten form; login rewriting exactly for the public query *)
+  Theorem c19_search_terms_are_documented_reading : forall c t s r k,
+    get_sub c t s = (r, Some k) ->
+    exists q wl, active_query_c19 t s = Some (q, wl) /\ well_formed q /\
+                 (k_req k, k_opt k) = denote lower (rewrite_tag (s_cc s) wl) q.
+  Proof. exact (get_sub_call_is_documented_reading_c19 lower is_letter is_number vals auths). Qed.
+
+  (* the precedence of rewriteTag, for ALL strings: a term that already has a prefix is left alone; *)
+  Theorem c19_rewrite_prefixed_left_alone : forall cc wl orig,
+    prefixed is_letter is_number orig = true -> rewrite_tag cc wl orig = orig.
+  Proof. exact (rewrite_prefixed_c19 is_letter is_number vals auths). Qed.
+
+  (* else the first validator (e-mail, phone) that indexes it decides - whatever the authenticators
+     would make of the same string (a phone number made of digits is also a well-formed login); *)
+  Theorem c19_rewrite_validators_first : forall cc wl orig vs1 v vs2,
+    vals = vs1 ++ v :: vs2 -> prefixed is_letter is_number orig = false ->
+    (forall u, In u vs1 -> u cc orig = []) -> v cc orig <> [] ->
+    rewrite_tag cc wl orig = v cc orig.
+  Proof. exact (rewrite_validator_first_c19 is_letter is_number vals auths). Qed.
+
+  (* else, with login rewriting, the first authenticator that answers; *)
+  Theorem c19_rewrite_logins_second : forall cc orig as1 a as2,
+    auths = as1 ++ a :: as2 -> prefixed is_letter is_number orig = false ->
+    (forall u, In u vals -> u cc orig = []) ->
+    (forall b, In b as1 -> b orig = []) -> a orig <> [] ->
+    rewrite_tag cc true orig = a orig.
+  Proof. exact (rewrite_login_second_c19 is_letter is_number vals auths). Qed.
+
+  (* else the term itself when it is a valid tag, and nothing (the term is dropped) when not *)
+  Theorem c19_rewrite_plain_or_dropped : forall cc wl orig,
+    prefixed is_letter is_number orig = false -> (forall u, In u vals -> u cc orig = []) ->
+    (wl = true -> forall a, In a auths -> a orig = []) ->
+    rewrite_tag cc wl orig = if tag_ok is_letter is_number orig then orig else [].
+  Proof. exact (rewrite_plain_c19 is_letter is_number vals auths). Qed.
+
+  (* malformed queries never reach the store *)
+  Theorem c19_search_malformed_query_rejected : forall c t s q wl,
+    active_query_c19 t s = Some (q, wl) -> q <> [] -> ~ well_formed q ->
+    get_sub c t s = (FCtrl 400, None).
+  Proof. exact (get_sub_malformed_rejected_c19 lower is_letter is_number vals auths). Qed.
+
+  (* (c) a session that is not root always passes activeOnly, in every history ... *)
+  Theorem c19_search_nonroot_passes_active_only : forall c t s r k,
+    get_sub c t s = (r, Some k) -> s_root s = false -> k_active k = true.
+  Proof. exact (get_sub_nonroot_active_only_c19 lower is_letter is_number vals auths). Qed.
+
+  Theorem c19_search_history_nonroot_active_only : forall c rs t,
+    Forall2 (fun r a => match r, snd a with
+                        | FGetSub s, Some k => s_root s = false -> k_active k = true
+                        | _, _ => True
+                        end) rs (snd (run c t rs)).
+  Proof. exact (run_nonroot_active_only_c19 lower is_letter is_number vals auths). Qed.
+
+  (* ... and is shown only rows that exist, carry a tag of the query and one of every required
+     group, and - for a session that is not root - are active (neither suspended nor deleted) *)
+  Theorem c19_search_results_allowed : forall c t s ids k,
+    get_sub c t s = (FMeta ids, Some k) ->
+    forall i, In i ids -> exists x, In x (fc_world c) /\ cd_id x = i /\
+      cand_matches_c19 (k_req k) (k_opt k) x = true /\ (s_root s = false -> cd_ok x = true).
+  Proof. exact (get_sub_results_allowed_c19 lower is_letter is_number vals auths). Qed.
+End C19Search.
+Print Assumptions c19_search_masked_terms_are_own.
+Print Assumptions c19_search_foreign_masked_term_refused.
+Print Assumptions c19_search_history_masked_terms_are_own.
+Print Assumptions c19_search_terms_are_documented_reading.
+Print Assumptions c19_rewrite_prefixed_left_alone.
+Print Assumptions c19_rewrite_validators_first.
+Print Assumptions c19_rewrite_logins_second.
+Print Assumptions c19_rewrite_plain_or_dropped.
+Print Assumptions c19_search_malformed_query_rejected.
+Print Assumptions c19_search_nonroot_passes_active_only.
+Print Assumptions c19_search_history_nonroot_active_only.
+Print Assumptions c19_search_results_allowed.
+
+(* non-vacuity of the search layer: toy rewriters that OVERLAP on digit strings, as the phone
+   validator and the login authenticator do *)
+Definition x_digits (s : tag) : bool := negb (is_nil s) && forallb ascii_digit s.
+Definition x_tel (cc s : tag) : tag := if x_digits s then [116; 101; 108; 58; 43]%N ++ cc ++ s else [].   (* tel:+<cc><s> *)
+Definition x_login (s : tag) : tag :=
+  if negb (is_nil s) && forallb (fun r => ascii_letter r || ascii_digit r) s
+  then [98; 97; 115; 105; 99; 58]%N ++ s else [].                                                    (* basic:<s> *)
+Definition x_rewrite := rewrite_tag_c19 ascii_letter ascii_digit [x_tel] [x_login].
+(* 650 with country code 1 and login rewriting on: the validator wins -> tel:+1650 *)
+Example c19_ex_rewrite_phone : x_rewrite [49]%N true [54; 53; 48]%N = [116; 101; 108; 58; 43; 49; 54; 53; 48]%N.
+Proof. reflexivity. Qed.
+(* bob -> basic:bob with login rewriting, bob without *)
+Example c19_ex_rewrite_login : x_rewrite [49]%N true s_bob = s_basic_bob /\ x_rewrite [49]%N false s_bob = s_bob.
+Proof. split; reflexivity. Qed.
+
+Definition s_org : tag := [111; 114; 103]%N.
+Definition s_org_acme : tag := (s_org ++ [58; 97; 99; 109; 101])%N.          (* org:acme *)
+Definition s_org_rival : tag := (s_org ++ [58; 114; 105; 118; 97; 108])%N.   (* org:rival *)
+Definition s_travel : tag := [116; 114; 97; 118; 101; 108]%N.
+Definition x_sess : sess_c19 := mkSessC19 1 false [49]%N.
+Definition x_root : sess_c19 := mkSessC19 2 true [49]%N.
+Definition x_cfg : fcfg_c19 :=
+  mkFcfgC19 [s_org] [s_org_acme; s_travel] 0
+    [mkCandC19 0 true true [s_org_acme; s_travel];          (* the searcher *)
+     mkCandC19 1 true true [s_travel];
+     mkCandC19 2 true false [s_travel];                     (* suspended account *)
+     mkCandC19 3 false true [s_org_rival];
+     mkCandC19 4 false false [s_travel; s_org_acme]]%N.     (* deleted topic *)
+Definition x_run := run_c19 ascii_lower ascii_letter ascii_digit [x_tel] [x_login] x_cfg.
+(* the private query "travel,org:rival": the foreign masked tag in the OPTIONAL list is refused;
+   "travel": the ordinary session finds account 1 only, the root session also 2 and 4;
+   "travel,org:acme": refused as long as the fnd topic holds no tags (initTopicFnd), executed once
+   it holds the user's tags *)
+Example c19_ex_search_history :
+  snd (x_run (load_c19 None)
+         [FSetDesc x_sess None (Some (s_travel ++ [44] ++ s_org_rival)); FGetSub x_sess;
+          FSetDesc x_sess None (Some s_travel); FGetSub x_sess; FGetSub x_root;
+          FSetDesc x_sess None (Some (s_travel ++ [44] ++ s_org_acme)); FGetSub x_sess;
+          FUserTags; FGetSub x_sess]%N)
+  = [(FCtrl 200, None); (FCtrl 403, None);
+     (FCtrl 200, None); (FMeta [1], Some (mkCallC19 [[s_travel]] [] true)); (FMeta [1; 2; 4], Some (mkCallC19 [[s_travel]] [] false));
+     (FCtrl 200, None); (FCtrl 403, None);
+     (FNone, None); (FMeta [1], Some (mkCallC19 [] [s_travel; s_org_acme] true))]%N.
 Proof. reflexivity. Qed.
